@@ -395,6 +395,44 @@ impl<'ast> Visit<'ast> for Regs {
     }
 }
 
+/// `benchcalls`: every `<recv>.bench(<arg>)` method call in the expansion (the call the generated runner makes on the
+/// `Bencher` it is given): is the argument the benchmarked function itself / a closure whose value is a call expression,
+/// or a closure that discards the call's value (block without tail expression)?
+struct BenchCalls {
+    out: Vec<String>,
+}
+
+fn closure_value_kind(e: &syn::Expr) -> &'static str {
+    match e {
+        syn::Expr::Call(_) | syn::Expr::MethodCall(_) | syn::Expr::Path(_) => "value",
+        syn::Expr::Paren(p) => closure_value_kind(&p.expr),
+        syn::Expr::Group(g) => closure_value_kind(&g.expr),
+        syn::Expr::Block(b) => match b.block.stmts.last() {
+            Some(syn::Stmt::Expr(x, None)) => closure_value_kind(x),
+            Some(syn::Stmt::Expr(_, Some(_))) => "discarded",
+            Some(_) => "discarded",
+            None => "unit",
+        },
+        _ => "other",
+    }
+}
+
+impl<'ast> Visit<'ast> for BenchCalls {
+    fn visit_expr_method_call(&mut self, m: &'ast syn::ExprMethodCall) {
+        if m.method == "bench" && m.args.len() == 1 {
+            let a = &m.args[0];
+            let (kind, value) = match a {
+                syn::Expr::Path(_) => ("path", "value"),
+                syn::Expr::Closure(c) => ("closure", closure_value_kind(&c.body)),
+                _ => ("other", "other"),
+            };
+            let recv = toks(&*m.receiver);
+            self.out.push(format!("{{\"recv\":{},\"kind\":{},\"value\":{},\"arg\":{}}}", js(&recv), js(kind), js(value), js(&toks(a))));
+        }
+        visit::visit_expr_method_call(self, m);
+    }
+}
+
 fn main() {
     let args: Vec<String> = std::env::args().collect();
     if args.len() != 3 {
@@ -419,6 +457,11 @@ fn main() {
             let mut v = Regs { mods: vec![], fns: vec![], out: vec![], push_statics_total: 0 };
             v.visit_file(&file);
             println!("{{\"push_statics_total\":{},\"regs\":[\n{}\n]}}", v.push_statics_total, v.out.join(",\n"));
+        }
+        "benchcalls" => {
+            let mut v = BenchCalls { out: vec![] };
+            v.visit_file(&file);
+            println!("{{\"calls\":[\n{}\n]}}", v.out.join(",\n"));
         }
         _ => std::process::exit(2),
     }
